@@ -354,7 +354,7 @@ Proof.
   destruct disk as [c0|]; cbn [ln];
     [destruct (expired (lastChecked c0) (now i)); cbn [negb];
      destruct (latestV c0) as [|l0 lr] eqn:Hlv|];
-    destruct (fetch i) as [t|]; repeat mn_tac; intros [= <- <-]; cbn [ln lastNotified app] in *;
+    destruct (fetched i) as [t|]; repeat mn_tac; intros [= <- <-]; cbn [ln lastNotified app] in *;
     try (left; split; [reflexivity|congruence]);
     try (right; repeat split; solve [auto|congruence|lia]);
     try (exfalso; unfold WINDOW in *; lia).
